@@ -273,7 +273,8 @@ fn time_limit(ctx: &Ctx) -> SubReport {
                 Err((loc, msg)) => rep.fail(ctx, Fail::new(format!("C02/time-limit/panic@{}", loc), msg), case),
                 Ok(o) => {
                     if el.as_millis() as u64 > t + 3000 {
-                        rep.inconclusive.push(format!("time-limit sub-check: run took {} ms for a {} ms limit (slow machine?)", el.as_millis(), t));
+                        // a heavily loaded machine: nothing is asserted for this run (the slow-step sub-check decides the outcome independently of speed)
+                        rep.notes.push(format!("time-limit sub-check: run took {} ms for a {} ms limit (loaded machine): not judged", el.as_millis(), t));
                     } else if o != PushInterpreterState::TimeLimitExceeded {
                         rep.fail(ctx, Fail::new("C02/time-limit/wrong-outcome", format!("diverging program with limit {} ms returned {:?} after {} ms", t, o, el.as_millis())), case);
                     } else if (el.as_millis() as u64) < *t {
